@@ -28,6 +28,8 @@ macro_rules! exception {
             concat!("exception: ", $fmt, ", exiting")
             $($tt)*
         );
+        #[cfg(lace_verif)]
+        crate::verif::exit_hook(0xEE);
         std::process::exit(0xEE);
     }};
 }
@@ -306,6 +308,8 @@ impl RunState {
                 Halting...\
                 "
             );
+            #[cfg(lace_verif)]
+            crate::verif::exit_hook(1);
             std::process::exit(1);
         }
 
@@ -586,6 +590,8 @@ fn read_byte_stdin(mut stdin: io::Stdin) -> u8 {
             // This should NOT use `exception!`: it is an error with the
             // emulator, not the CPU
             eprintln!("unexpected end of input file stream.");
+            #[cfg(lace_verif)]
+            crate::verif::exit_hook(1);
             std::process::exit(1);
         } else {
             panic!("failed to read character from stdin: {:?}", err)
